@@ -346,7 +346,9 @@ for _k, _v in MORE_TIE.items():
 MORE_THM = {
  "C02": " A WRITER HELD OPEN across other operations (C02x): from any healthy state in which its temp file is untouched the commit does "
         "exactly what it would have done straight away on the state it finds (held_commit_refines); every operation sequence "
-        "without clear leaves a held temp file alone (ops_preserve_tmp); composed: held_across_ops.",
+        "without clear leaves a held temp file alone (ops_preserve_tmp); composed: held_across_ops; by-address writers likewise; after a clear "
+        "in between the commit answers the I/O not-found error and nothing comes back (nothing_comes_back); two held writers of one "
+        "key committed in either order: the last commit decides (held_two_writers).",
  "C01": " FROM OPEN ON: whatever open / open_hash answered ok, any sequence of reads hands out a prefix of the content file as it "
         "was at open and check() is ok only if the bytes pass the check of the requested address / found entry "
         "(read_stream_sound_from_open, _from_openHash); a keyed read that is ok under any fault plan met no fault and returns "
